@@ -185,3 +185,33 @@ theorem expectedFetchParts_plain (ext : Ext) (g : Bytes → Option Bytes) (depth
   rfl
 
 end Afkak.Wire
+
+namespace Afkak.Wire
+open Afkak Afkak.Bytes Afkak.Codec Afkak.Consts Afkak.Monitor.C05
+
+set_option synthInstance.maxSize 100000
+
+theorem mapM_eq_map_of_forall {γ δ : Type} (h : γ → Option δ) (k : γ → δ) :
+    ∀ (l : List γ) (r : List δ), l.mapM h = some r → (∀ x ∈ l, ∀ y, h x = some y → y = k x) → r = l.map k := by
+  intro l
+  induction l with
+  | nil => intro r hr _; simp at hr; subst hr; rfl
+  | cons a as ih =>
+    intro r hr hk
+    rw [List.mapM_cons] at hr
+    cases ha : h a with
+    | none => simp [ha] at hr
+    | some b =>
+      cases has : as.mapM h with
+      | none => simp [ha, has] at hr
+      | some bs =>
+        simp [ha, has] at hr
+        subst hr
+        rw [hk a List.mem_cons_self b ha, ih bs has (fun x hx => hk x (List.mem_cons_of_mem _ hx))]
+        rfl
+
+theorem flatten_pair_map {α β : Type} (k : Bytes → α → β) (topics : List (Bytes × List α)) :
+    (flatten (fun t p => (t, p)) topics).map (fun tp => k tp.1 tp.2) = flatten k topics := by
+  simp only [flatten, List.map_flatMap, List.map_map, Function.comp_def]
+
+end Afkak.Wire
